@@ -84,6 +84,10 @@ def gen_utc(y0, y1, times=TIMES):
                             eu, en = Epoch(y, m, d, h, mi, utc=True), Epoch((y, m, d, h, mi))    # five values
                         elif form == 5:
                             eu, en = Epoch(2000, 1, 1.5), Epoch(1990, 6, 6)
+                            # a long-lived object: set and read back (UTC) in ANOTHER era of the leap-second history first
+                            eu.set(1975 if y >= 1985 else 2017, 3, 15.5, utc=True)
+                            _readback(eu, utc=True)
+                            eu.get_date(utc=True)
                             eu.set(y, m, d, h, mi, s, utc=True)
                             en.set(y, m, d, h, mi, s)
                         else:
